@@ -29,6 +29,8 @@ structure Block where
   pv : Nat
   txs : List Nat
   valid : Bool
+  reqId : Nat := 0            -- header `RequestIds["fixed"]`
+  txReqs : List Nat := []     -- `RequestId` of each transaction of the block
 deriving DecidableEq, Repr, Inhabited
 
 abbrev Map (α : Type) := Nat → Option α
@@ -148,6 +150,23 @@ def pvGreater (loc rem : Block) : Bool :=
   else if loc.pv < rem.pv then false
   else loc.hash > rem.hash
 
+/-- `getRequestIdFromTransactions(txs, last)["fixed"]`: the largest request id among the transactions if it is
+    non-zero and exceeds the parent's, else the parent's. -/
+def requestIdFrom (reqs : List Nat) (last : Nat) : Nat :=
+  let m := reqs.foldl (fun acc r => if r > acc then r else acc) 0
+  if m ≠ 0 ∧ m > last then m else last
+
+/-- `blockChain.nextPvGreatThanFork(commonAncestor, fork)`: on an equal-QN fork switch the local branch keeps
+    the head unless both branches have a block right above the common ancestor and the local one does not win
+    the tie-break. `forkLatest` is the fork tip's height, `forkNext` the fork's block at `anc.height+1`. -/
+def nextPvGreatThanFork (localLatest : Nat) (localNext : Option Block) (anc : Block) (forkLatest : Nat)
+    (forkNext : Option Block) : Bool :=
+  if anc.height < forkLatest ∧ anc.height < localLatest then
+    match forkNext, localNext with
+    | some f, some c => pvGreater c f
+    | _, _ => true
+  else true
+
 /-- `TxPool.add` on each transaction (memory only). -/
 def addPending (pending : List Nat) (executed : Map Nat) : List Nat → List Nat
   | [] => pending
@@ -202,8 +221,9 @@ def verify (s : St) (b : Block) : St × Bool :=
   if s.mem.verified.contains b.hash then (s, true) else
   match s.disk.blocks b.pre with
   | none => (s.setMem { s.mem with future := upd s.mem.future b.pre (some b) }, false)
-  | some _ =>
+  | some pre =>
     if s.p008 && b.txs.any (fun t => (s.disk.executed t).isSome) then (s, false)   -- Proposal008
+    else if requestIdFrom b.txReqs pre.reqId != b.reqId then (s, false)    -- request id of the header
     else if !b.valid then (s, false)                                       -- checkStates
     else (s.setMem { s.mem with verified := lruAdd verifiedCap s.mem.verified b.hash }, true)
 
